@@ -545,3 +545,95 @@ fn enc_body_step_p0() {
 fn enc_body_step_p4() {
     body_step::<4>()
 }
+
+
+// ---- W1 (features gzip,deflate,zstd): the flag byte is 1 exactly when a compression encoding is in force ---------------------
+#[cfg(all(feature = "gzip", feature = "deflate", feature = "zstd"))]
+#[kani::proof]
+#[kani::unwind(12)]
+#[kani::stub(alloc::fmt::format, fmt_stub)]
+fn enc_finish_flag() {
+    let mut raw: [u8; 8] = kani::any();
+    let which: u8 = kani::any();
+    let enc = match which % 4 {
+        0 => None,
+        1 => Some(CompressionEncoding::Gzip),
+        2 => Some(CompressionEncoding::Deflate),
+        _ => Some(CompressionEncoding::Zstd),
+    };
+    let r = finish_encoding(enc, None, &mut raw[..]);
+    assert!(r.is_ok());
+    core::mem::forget(r);
+    assert!(raw[0] == if enc.is_some() { 1 } else { 0 }, "C03/C05: the compressed flag must be 1 exactly when an encoding is in force");
+    assert!(raw[1] == 0 && raw[2] == 0 && raw[3] == 0 && raw[4] == 3, "C03: length prefix is not the payload length");
+    kani::cover!(enc.is_none(), "identity");
+    kani::cover!(which % 4 == 3, "zstd");
+}
+
+
+// ---- X1 (features gzip,deflate,zstd): the compressed path with an ABSTRACT codec ------------------------------------------------
+// `compress` (tonic's own pub(crate) fn wrapping flate2/zstd, which cannot be executed symbolically) is replaced by an invertible
+// stand-in that also records which encoding it was asked for: output = [0xC0 | id(encoding)] ++ input.  Decided: flag 1, length
+// prefix = length of the compressor's output, payload = the compressor's output, the announced encoding is the one used.
+#[cfg(all(feature = "gzip", feature = "deflate", feature = "zstd"))]
+fn enc_id(e: CompressionEncoding) -> u8 {
+    match e {
+        CompressionEncoding::Gzip => 1,
+        CompressionEncoding::Deflate => 2,
+        CompressionEncoding::Zstd => 3,
+    }
+}
+#[cfg(all(feature = "gzip", feature = "deflate", feature = "zstd"))]
+fn compress_abstract(
+    settings: super::super::compression::CompressionSettings,
+    input: &mut BytesMut,
+    out: &mut BytesMut,
+    len: usize,
+) -> Result<(), std::io::Error> {
+    out.put_u8(0xC0 | enc_id(settings.encoding));
+    out.put_slice(&input[..len]);
+    bytes::Buf::advance(input, len);
+    Ok(())
+}
+
+#[cfg(all(feature = "gzip", feature = "deflate", feature = "zstd"))]
+#[kani::proof]
+#[kani::unwind(8)]
+#[kani::stub(alloc::fmt::format, fmt_stub)]
+#[kani::stub(crate::codec::compression::compress, compress_abstract)]
+fn enc_item_compressed() {
+    let pre: [u8; 2] = kani::any();
+    let data: [u8; 2] = kani::any();
+    let which: u8 = kani::any();
+    let enc = match which % 3 {
+        0 => CompressionEncoding::Gzip,
+        1 => CompressionEncoding::Deflate,
+        _ => CompressionEncoding::Zstd,
+    };
+    let max: Option<usize> = kani::any();
+    let mut buf = BytesMut::new();
+    buf.put_slice(&pre);
+    let mut ubuf = BytesMut::new();
+    let mut e = CopyEnc { settings: BufferSettings::new(8, 64) };
+    let r = encode_item(&mut e, &mut buf, &mut ubuf, Some(enc), max, BufferSettings::new(8, 64), Msg { len: 2, data, enc_fail: false });
+    match &r {
+        Ok(()) => {
+            kani::cover!(true, "compressed frame");
+            assert!(3 <= limit_of(max), "C06: the send limit applies to the compressed length");
+            assert!(buf.len() == 2 + 5 + 3);
+            assert!(buf[0] == pre[0] && buf[1] == pre[1], "C01: earlier bytes modified");
+            assert!(buf[2] == 1, "C03: a compressed message must carry flag 1");
+            assert!(buf[3] == 0 && buf[4] == 0 && buf[5] == 0 && buf[6] == 3, "C03: length prefix must be the compressed length");
+            assert!(buf[7] == (0xC0 | enc_id(enc)), "C05: the compressor was not asked for the announced encoding");
+            assert!(buf[8] == data[0] && buf[9] == data[1], "C01: the compressor did not receive exactly the serialized message");
+        }
+        Err(s) => {
+            kani::cover!(true, "over the limit");
+            assert!(3 > limit_of(max));
+            assert!(s.code() == Code::OutOfRange);
+        }
+    }
+    core::mem::forget(r);
+    core::mem::forget(buf);
+    core::mem::forget(ubuf);
+}
